@@ -323,3 +323,29 @@ CASES["C14"] = [
      "        if any(\n            [\n                dispatcher(block, comparison_dm.result, lambda x: dispatch_to_dm(x, self.ctx))\n                for block in func_op.body.blocks\n            ]\n        ):\n",
      "        changed_dm = False\n        for block in func_op.body.blocks:\n            changed_dm = dispatcher(block, comparison_dm.result, lambda x: dispatch_to_dm(x, self.ctx)) or changed_dm\n        if changed_dm:\n", []),
 ]
+
+CONSTRUCT = "snaxc/transforms/pipeline/construct_pipeline.py"
+DUPB = "snaxc/transforms/pipeline/pipeline_duplicate_buffers.py"
+UNROLL = "snaxc/transforms/pipeline/unroll_pipeline.py"
+
+CASES["C15"] = [
+    ("reintroduce F-12 (no lb/step guard)", "mutant", CONSTRUCT, "        if extract_cst_index(op.lb) != 0 or extract_cst_index(op.step) != 1:\n            return\n", "", ["C15.stage-shape"]),
+    ("prologue one step too long", "mutant", UNROLL, "        # 0: Insert preamble\n        index_ops = []\n        for i in range(pipeline.nb_stages - 1):", "        # 0: Insert preamble\n        index_ops = []\n        for i in range(pipeline.nb_stages):", ["C15.counts"]),
+    ("lb shift by nb_stages", "mutant", UNROLL, "cst = arith.ConstantOp.from_int_and_width(pipeline.nb_stages - 1, builtin.IndexType())", "cst = arith.ConstantOp.from_int_and_width(pipeline.nb_stages, builtin.IndexType())", ["C15.counts"]),
+    ("index clones from 0", "mutant", UNROLL, "for i in range(1, pipeline.nb_stages):", "for i in range(0, pipeline.nb_stages - 1):", ["C15.counts"]),
+    ("epilogue barrier deleted", "mutant", UNROLL, "            ops_to_add.append(snax.ClusterSyncOp())\n", "", ["C15.barriers"]),
+    ("steady-state barrier deleted", "mutant", UNROLL, "        rewriter.insert_op(snax.ClusterSyncOp(), InsertPoint.at_end(pipeline.body.block))\n", "", ["C15.barriers"]),
+    ("epilogue from ub - i", "mutant", UNROLL, "index = arith.ConstantOp.from_int_and_width(i + 1, builtin.IndexType())\n            index_val = arith.SubiOp(for_op.ub, index)", "index = arith.ConstantOp.from_int_and_width(i, builtin.IndexType())\n            index_val = arith.SubiOp(for_op.ub, index)", ["C15.counts"]),
+    ("prologue stage j uses clone i", "mutant", UNROLL, "for operand_0, operand_j in zip(index_op.results, index_ops[i - j].results):\n                    operand_0.replace_uses_with_if(operand_j, lambda use: use.operation.parent_op() is stage)\n            rewriter.insert_op(snax.ClusterSyncOp(), InsertPoint.before(for_op))",
+     "for operand_0, operand_j in zip(index_op.results, index_ops[i].results):\n                    operand_0.replace_uses_with_if(operand_j, lambda use: use.operation.parent_op() is stage)\n            rewriter.insert_op(snax.ClusterSyncOp(), InsertPoint.before(for_op))", ["C15.counts"]),
+    ("stage predicate off by one", "mutant", UNROLL, "return stage.index.value.data == i", "return stage.index.value.data == i - 1", ["C15.index-shift"]),
+    ("three-way parity with two buffers", "mutant", DUPB, "cst_2 = arith.ConstantOp.from_int_and_width(2, builtin.IndexType())", "cst_2 = arith.ConstantOp.from_int_and_width(3, builtin.IndexType())", ["C15.parity"]),
+    ("non-adjacent stages accepted", "mutant", DUPB, "        if in_op.index.value.data != out_op.index.value.data + 1:\n            raise NotImplementedError(\"non-subsequent in/out uses of buffer is not yet supported\")\n", "", ["C15.parity"]),
+    ("several readers accepted", "mutant", DUPB, "if len(in_uses) != 1 or len(out_uses) != 1:", "if len(out_uses) != 1:", ["C15.parity"]),
+    ("shortcut also for dm-only stages", "mutant", DUPB, "if len(in_uses) == 0 or len(out_uses) == 0:", "if len(in_uses) == 0 or len(out_uses) == 0 or len(buffer.uses) == 2:", ["C15.parity"]),
+    ("select always the original", "mutant", DUPB, "selection = arith.SelectOp(selection_index, buffers[0], buffers[1])", "selection = arith.SelectOp(selection_index, buffers[0], buffers[0])", ["C15.parity"]),
+    ("single stage accepted", "mutant", CONSTRUCT, "if len(stages) < 2:", "if len(stages) < 1:", ["C15.stage-shape"]),
+    ("block args always appended", "mutant", CONSTRUCT, "operation.operands[index] = stage_block.insert_arg(operand.type, arg_insert_index)", "operation.operands[index] = stage_block.insert_arg(operand.type, len(stage_block.args))", ["C15.stage-shape"]),
+    ("twin: guard spelled with two ifs", "twin", CONSTRUCT, "        if extract_cst_index(op.lb) != 0 or extract_cst_index(op.step) != 1:\n            return\n", "        if extract_cst_index(op.lb) != 0:\n            return\n        if not extract_cst_index(op.step) == 1:\n            return\n", []),
+    ("twin: shortcut disjuncts swapped", "twin", DUPB, "if len(in_uses) == 0 or len(out_uses) == 0:", "if len(out_uses) == 0 or len(in_uses) == 0:", []),
+]
